@@ -184,12 +184,54 @@ Definition pre_timeout (p : bytes) : option Z :=
   | None => None
   end.
 
+(* ---- the error VALUE a failing step hands to res.InternalError (errors.go).  What the code
+   looks at is only err.Error(), guarded by errString against a panicking Error method;
+   the dynamic type (a *res.Error with its own code, a wrapper around one) plays no role. ---- *)
+Inductive errval :=
+| EPlain (text : bytes)                     (* errors.New, a nats sentinel, a json error: Error() = text *)
+| ERes (code msg : bytes)                   (* a non-nil *res.Error: Error() = Message *)
+| EResNil                                   (* a nil *res.Error in a non-nil error interface: Error() panics *)
+| EWrap (text : bytes) (inner : errval)     (* fmt.Errorf wrapping inner: text fixed at construction, Unwrap() = inner *)
+| ELazy (prefix : bytes) (inner : errval).  (* json.MarshalerError: Error() = prefix ++ inner.Error(), computed when called *)
+
+(* err.Error(); None = it panics *)
+Fixpoint err_text (e : errval) : option bytes :=
+  match e with
+  | EPlain t => Some t
+  | ERes _ m => Some m
+  | EResNil => None
+  | EWrap t _ => Some t
+  | ELazy p i => match err_text i with Some t => Some (p ++ t) | None => None end
+  end.
+Definition panic_text : bytes := [112; 97; 110; 105; 99; 32; 105; 110; 32; 69; 114; 114; 111; 114; 32; 109; 101; 116; 104; 111; 100].   (* panic in Error method *)
+Definition err_string (e : errval) : bytes :=       (* errors.go errString *)
+  match err_text e with Some t => t | None => panic_text end.
+
+Definition code_internal : bytes := [115; 121; 115; 116; 101; 109; 46; 105; 110; 116; 101; 114; 110; 97; 108; 69; 114; 114; 111; 114].   (* system.internalError *)
+Definition prefix_internal : bytes := [73; 110; 116; 101; 114; 110; 97; 108; 32; 101; 114; 114; 111; 114; 58; 32].   (* Internal error: *)
+Definition code_timeout : bytes := [115; 121; 115; 116; 101; 109; 46; 116; 105; 109; 101; 111; 117; 116].   (* system.timeout *)
+Definition msg_timeout : bytes := [82; 101; 113; 117; 101; 115; 116; 32; 116; 105; 109; 101; 111; 117; 116].   (* Request timeout *)
+
+(* res.InternalError(err) as (Code, Message); Data is nil *)
+Definition internal_error (e : errval) : bytes * bytes := (code_internal, prefix_internal ++ err_string e).
+
 (* ---- SendRequest ---- *)
-Inductive fail := FNone | FMarshal | FSubscribe | FPublish.
+Inductive fail := FNone | FMarshal (e : errval) | FSubscribe (e : errval) | FPublish (e : errval).
+Definition fail_err (k : fail) : option errval :=
+  match k with FNone => None | FMarshal e | FSubscribe e | FPublish e => Some e end.
 Inductive outcome :=
 | OResponse (p : bytes)      (* ParseResponse(p) is returned *)
 | OTimeout                   (* Error = res.ErrTimeout *)
 | OInternal (k : fail).      (* Error = res.InternalError(err of step k) *)
+
+(* the (Code, Message) of the Error field SendRequest itself sets; None for OResponse, where the
+   whole Response is ParseResponse's *)
+Definition res_error (o : outcome) : option (bytes * bytes) :=
+  match o with
+  | OResponse _ => None
+  | OTimeout => Some (code_timeout, msg_timeout)
+  | OInternal k => match fail_err k with Some e => Some (internal_error e) | None => None end
+  end.
 
 (* `for _, f := range onTimeoutExtend { f(d) }` : (callback index, duration) *)
 Definition notify (ncb : nat) (d : Z) : list (nat * Z) := map (fun i => (i, d)) (seq 0 ncb).
@@ -241,14 +283,14 @@ Definition ret (subscribed published deferred : bool) (l : loopres) : result :=
    [arr] = what is delivered to the inbox after the publish *)
 Definition send (ncb : nat) (k : fail) (T : Z) (arr : list (Z * bytes)) : result :=
   match k with
-  | FMarshal => ret false false false (LR (OInternal FMarshal) [] 0 0 0)      (* json.Marshal error *)
+  | FMarshal _ => ret false false false (LR (OInternal k) [] 0 0 0)      (* json.Marshal error *)
   | _ =>
     match k with
-    | FSubscribe => ret false false false (LR (OInternal FSubscribe) [] 0 0 0) (* ChanSubscribe error: nothing deferred yet *)
+    | FSubscribe _ => ret false false false (LR (OInternal k) [] 0 0 0) (* ChanSubscribe error: nothing deferred yet *)
     | _ =>
       let deferred := true in                                                  (* defer sub.Unsubscribe() *)
       match k with
-      | FPublish => ret true false deferred (LR (OInternal FPublish) [] 0 0 0) (* PublishRequest error *)
+      | FPublish _ => ret true false deferred (LR (OInternal k) [] 0 0 0) (* PublishRequest error *)
       | _ => ret true true deferred (wait ncb 0 T arr)                         (* timer := NewTimer(timeout); for { select } *)
       end
     end
